@@ -28,14 +28,7 @@ KNOWN_UNION = "C20-union-order"
 def _observe(args):
     (t, v, fi) = args
     klass = getattr(tc._MODS["verif_types_fields"], f"F{fi}") if fi is not None else None
-    sites = tc.coerce_sites(t, v, klass)
-    for o in sites:
-        # member-wise observations are only needed to compute the as-built prediction of a
-        # second coercion that did not give the stored value back
-        o["mw"] = []
-        if o["acc"] and (not o["r2acc"] or o["r2"] != o["r"]):
-            o["mw"] = tc.memberwise(t, o["r"], o["site"])
-    return sites
+    return tc.coerce_sites(t, v, klass)
 
 
 def _run_one(args):
@@ -140,7 +133,7 @@ def run(ctx):
     if ctx.thorough:
         plan = [("d1", sh, 4) for sh in range(4)] + [("d2", sh, 12) for sh in range(12)]
         ctx.exhaustive = True
-        n_run = 1500
+        n_run = 400
     else:
         nsh = 24
         plan = [("d1", sh, 6) for sh in range(6)] + [("d2", ctx.seed % nsh, nsh)]
@@ -178,7 +171,7 @@ def run(ctx):
         for o in sites:
             ctx.ran()
             if o["acc"] and o["site"] == "field_init":
-                accepted_pairs.append(c)
+                accepted_pairs.append((c, o["r"]))
             key = tc.json.dumps([o["acc"], o["err"], o["r"], o["r2acc"], o["r2"], o["mw"]], sort_keys=True)
             if key in seen:
                 index[seen[key]][2].append(o["site"])
@@ -192,6 +185,12 @@ def run(ctx):
     n_coerce = len(observations)
 
     # run stage: accepted at construction => the task runs and its body receives the stored value
+    runnable = [c for c, r in accepted_pairs if not tc.mixed_set(c["v"]) and not tc.mixed_set(r)]
+    if len(runnable) < len(accepted_pairs):
+        ctx.observe("run stage leaves out values holding a set of mixed element kinds: pydra cannot hash them "
+                    "(sorted() in bytes_repr_set -- a cache-identity matter, properties C07/C08), the run would fail for "
+                    "a reason that is not the field's type", {"left_out": len(accepted_pairs) - len(runnable)})
+    accepted_pairs = runnable
     pool = accepted_pairs if len(accepted_pairs) <= n_run else ctx.rng.sample(accepted_pairs, n_run)
     rres = core.pmap(_run_one, [(c["t"], c["v"], tkeys[tc.type_src(c["t"])]) for c in pool], chunksize=2)
     robs = []
